@@ -33,6 +33,13 @@ def check_case(ctx, r):
         if got[0] == "foreign":
             key["exc"] = got[1]
         ctx.violation(key, {"text": s, "expected": exp, "got": got, "case": {k: r[k] for k in ("fn", "n", "style", "ctxt")}})
+    if "bws" in r:          # the same call written with optional whitespace wherever the grammar allows it
+        s2 = project.text(r["bws"])
+        got2 = project.outcome(s2)
+        ctx.traces += 1
+        if got2 != exp:
+            ctx.violation(dict(key, got=got2[0], layout="bws"), {"text": s2, "expected": exp, "got": got2,
+                                                                "case": {k: r[k] for k in ("fn", "n", "style", "ctxt")}})
     if exp[0] != "ok" or r["n"] >= 2:
         ctx.nontriv([r["fn"], r["n"], r["style"], r["ctxt"]])
         if r["ctxt"] == "cmp":
